@@ -210,6 +210,15 @@ func mkBin(op string, a, b *Term) *Term {
 				return True
 			}
 		}
+		// emptiness of a length written as an order comparison: len(x) < 1, len(x) <= 0 are len(x) == 0;
+		// 0 < len(x), 1 <= len(x) are len(x) != 0 - one normal form for the emptiness test
+		isLen := func(t *Term) bool { return t.Op == "len" || t.Op == "cap" }
+		if k, ok := y.IntConst(); ok && isLen(x) && (o == "<" && k == 1 || o == "<=" && k == 0) {
+			return mkBin("==", &Term{Op: "const", Aux: "0"}, x)
+		}
+		if k, ok := x.IntConst(); ok && isLen(y) && (o == "<" && k == 0 || o == "<=" && k == 1) {
+			return mkBin("!=", &Term{Op: "const", Aux: "0"}, y)
+		}
 	}
 	// freshly made objects are never nil: make(chan ..), make(map ..), make([]T ..), new / &T{}, function values
 	if op == "==" || op == "!=" {
